@@ -15,8 +15,12 @@ import (
 type FaultConn struct {
 	net.Conn
 	failWrites int32
+	failNext   int32 // number of coming writes to refuse (transient fault)
 	Failed     int64 // number of writes refused
 }
+
+// FailNextWrites makes the next n writes fail; later ones succeed again.
+func (f *FaultConn) FailNextWrites(n int) { atomic.StoreInt32(&f.failNext, int32(n)) }
 
 var ErrInjectedWrite = errors.New("injected write failure")
 
@@ -29,6 +33,16 @@ func (f *FaultConn) FailWrites(on bool) {
 }
 
 func (f *FaultConn) Write(b []byte) (int, error) {
+	for {
+		k := atomic.LoadInt32(&f.failNext)
+		if k <= 0 {
+			break
+		}
+		if atomic.CompareAndSwapInt32(&f.failNext, k, k-1) {
+			atomic.AddInt64(&f.Failed, 1)
+			return 0, ErrInjectedWrite
+		}
+	}
 	if atomic.LoadInt32(&f.failWrites) == 1 {
 		atomic.AddInt64(&f.Failed, 1)
 		return 0, ErrInjectedWrite
